@@ -20,6 +20,7 @@ func init() {
 			"Does not decide: the modulo-quantum identity, the half-quantum step bound and the reset timing as numeric facts over all input sequences.",
 		RuleDocs: []string{
 			"C12.R1 E5 carried-state rule: loop-header phis, uses of the range index",
+			"C12.R5 a binary search is only made over a list sorted by a dominating call or a field the module sorts (no instance on the pinned tree; seed C12-6 is the positive example)",
 			"C12.R2 E3 congruence of the stored output and of every offset store; constructor home offset; sibling arms agree on mask/shift",
 			"C12.R3 control pairing of offset updates with the limit comparisons; dependence slice of the limits",
 			"C12.R4 control pairing of counter stores with the home test and the interval test",
@@ -53,6 +54,7 @@ func runC12(p *Prog, r *Report) {
 	r.MinInstances["C12.R2"] = 6
 	r.MinInstances["C12.R3"] = 5
 	r.MinInstances["C12.R4"] = 4
+	c12R5(p, r)
 	fn := p.Func("", puT, "UnwrapInPlace")
 	ctor := p.Func("", "", "NewPhaseUnwrapper")
 	if fn == nil || ctor == nil {
@@ -84,7 +86,45 @@ func runC12(p *Prog, r *Report) {
 		}
 	}
 	if main == nil {
-		r.Unk("C12.anchor", "unwrapping loop", p.Pos(fn.Pos()), "no range loop storing the offset field found")
+		// the loop may work on local copies of the state: loop-header phis seeded from the
+		// unwrapper's fields.  Then every seeded field must be written back after the loop on
+		// every path to a return; whether the copies are used correctly is not decided for this form.
+		type carried struct {
+			field string
+			phi   *ssa.Phi
+		}
+		var cs []carried
+		for _, l := range loops {
+			for _, in := range l.Header.Instrs {
+				ph, ok := in.(*ssa.Phi)
+				if !ok || ph == l.Phi {
+					continue
+				}
+				for i, e := range ph.Edges {
+					if l.Header.Dominates(l.Header.Preds[i]) {
+						continue
+					}
+					if f := puField(stripConv(e)); f != "" {
+						cs = append(cs, carried{f, ph})
+					}
+				}
+			}
+		}
+		if len(cs) == 0 {
+			r.Unk("C12.anchor", "unwrapping loop", p.Pos(fn.Pos()), "no range loop storing the offset field, and no loop carrying copies of the unwrapper's fields, found")
+			return
+		}
+		for _, c := range cs {
+			written := false
+			for _, st := range StoresTo(fn, puT, c.field) {
+				if InstrReaches(c.phi, st) {
+					written = true
+				}
+			}
+			r.Check(written, "C12.R1", "the local copy of "+c.field+" carried through the unwrapping loop is stored back into the unwrapper", p.InstrPos(c.phi), "stored back after the loop",
+				"the loop works on a local copy of "+c.field+" that is seeded from the unwrapper at every call and never stored back: the value restarts at every call, so the result depends on how the stream is split into calls")
+		}
+		r.Unk("C12.anchor", "unwrapping loop on local copies", p.Pos(fn.Pos()), "the loop works on local copies of the unwrapper's fields: write-back is checked, the arithmetic rules R2-R4 are written for the field form and cannot decide this form")
 		return
 	}
 	_ = NewPolyCtx
@@ -169,18 +209,32 @@ func runC12(p *Prog, r *Report) {
 		if !ok || inner.Op != token.AND {
 			return "shift of a non-masked value"
 		}
+		other := inner.X
 		m := puField(stripConv(inner.Y))
 		if m == "" {
 			m = puField(stripConv(inner.X))
+			other = inner.Y
+		}
+		// what is masked: the sample itself (element of the data slice), or something made of it
+		in := "raw"
+		ov := stripConv(other)
+		isElem := false
+		if ld, ok := ov.(*ssa.UnOp); ok && ld.Op == token.MUL {
+			if _, isIA := ld.X.(*ssa.IndexAddr); isIA {
+				isElem = true
+			}
+		}
+		if !isElem {
+			in = "[" + c05Describe(other, nil, 0) + "]"
 		}
 		sh := c05Describe(bo.Y, nil, 0)
-		return "(raw & " + m + ") >> " + sh
+		return "(" + in + " & " + m + ") >> " + sh
 	}
 	mainShape := "?"
 	if vVal != nil {
 		mainShape = shape(vVal)
 	}
-	r.Check(strings.HasPrefix(mainShape, "(raw & signMask) >> ") && strings.Contains(mainShape, "lowBitsToDrop"), "C12.R2", "the input is masked with the sign mask and shifted by the dropped bits", p.Pos(fn.Pos()), mainShape, "the enabled path reduces the input as `"+mainShape+"`")
+	r.Check(strings.Contains(mainShape, " & signMask) >> ") && strings.Contains(mainShape, "lowBitsToDrop"), "C12.R2", "the input is masked with the sign mask and shifted by the dropped bits", p.Pos(fn.Pos()), mainShape, "the enabled path reduces the input as `"+mainShape+"`")
 	if disabled != nil {
 		var dStore *ssa.Store
 		Instrs(fn, func(in ssa.Instruction) {
@@ -495,4 +549,83 @@ func multipleOfField(v ssa.Value, field string) bool {
 		return multipleOfField(u.X, field)
 	}
 	return false
+}
+
+// ---- R5: per-channel options are looked up by a test that is right for any list order ------------
+
+// c12R5: the per-channel settings of the unwrappers (which channels are inverted) come from
+// client-supplied lists in arbitrary order.  A binary search (sort.Search*, slices.BinarySearch)
+// over such a list is only a membership test when the list is sorted: the searched slice must be
+// sorted by a dominating call in the same function, or be a field that the module sorts somewhere.
+// There is no binary search in the pinned tree (the look-up is a linear scan), so this rule
+// normally has no instance; the kept seed C12-6 is its positive example in the thorough tier.
+func c12R5(p *Prog, r *Report) {
+	isSearch := func(name string) bool {
+		switch name {
+		case "sort.SearchInts", "sort.SearchStrings", "sort.SearchFloat64s", "sort.Search", "sort.Find", "slices.BinarySearch", "slices.BinarySearchFunc":
+			return true
+		}
+		return false
+	}
+	isSort := func(name string) bool {
+		switch name {
+		case "sort.Ints", "sort.Strings", "sort.Float64s", "sort.Sort", "sort.Stable", "sort.Slice", "sort.SliceStable", "slices.Sort", "slices.SortFunc", "slices.SortStableFunc":
+			return true
+		}
+		return false
+	}
+	sortedFields := map[FieldKey]bool{}
+	for _, fn := range p.LibFuncs() {
+		Instrs(fn, func(in ssa.Instruction) {
+			cc := CallOf(in)
+			if cc == nil || cc.StaticCallee() == nil || !isSort(CalleeName(cc)) || len(cc.Args) == 0 {
+				return
+			}
+			a := cc.Args[0]
+			if mi, ok := a.(*ssa.MakeInterface); ok {
+				a = mi.X
+			}
+			if ct, ok := a.(*ssa.ChangeType); ok {
+				a = ct.X
+			}
+			if u, ok := a.(*ssa.UnOp); ok {
+				if k, ok := fieldKeyOfAddr(u.X); ok {
+					sortedFields[k] = true
+				}
+			}
+		})
+	}
+	n := map[string]int{}
+	for _, fn := range p.LibFuncs() {
+		Instrs(fn, func(in ssa.Instruction) {
+			cc := CallOf(in)
+			if cc == nil || cc.StaticCallee() == nil || !isSearch(CalleeName(cc)) || len(cc.Args) == 0 {
+				return
+			}
+			r.Fn(FuncName(fn))
+			base := "binary search in " + FuncName(fn)
+			n[base]++
+			s := cc.Args[0]
+			ok := false
+			why := "the searched slice is neither sorted by a dominating call in this function nor a field the module sorts"
+			// sorted in this function?
+			Instrs(fn, func(x ssa.Instruction) {
+				c2 := CallOf(x)
+				if c2 != nil && c2.StaticCallee() != nil && isSort(CalleeName(c2)) && len(c2.Args) > 0 && c2.Args[0] == s && InstrDominates(x, in) {
+					ok = true
+				}
+			})
+			if u, isU := s.(*ssa.UnOp); isU && !ok {
+				if k, isF := fieldKeyOfAddr(u.X); isF {
+					if sortedFields[k] {
+						ok = true
+					} else {
+						why = "the searched list " + k.String() + " is never sorted anywhere in the module (clients send it in any order)"
+					}
+				}
+			}
+			r.Check(ok, "C12.R5", fmt.Sprintf("%s #%d is over a sorted list", base, n[base]), p.InstrPos(in), "sorted before the search",
+				why+": for an unsorted list the search misses entries, so listed channels get the wrong per-channel setting (e.g. are not inverted) and their unwrapped signal differs from the input by more than whole flux quanta")
+		})
+	}
 }
